@@ -10,6 +10,7 @@ import (
 	"strconv"
 	"strings"
 	"sync"
+	"syscall"
 	"time"
 )
 
@@ -37,6 +38,9 @@ type Stats struct {
 	Unsat    int
 	Unknown  int
 	Errors   int
+	Killed   int
+	SendTime time.Duration
+	GetTime  time.Duration
 	Time     time.Duration
 	MaxQuery time.Duration
 }
@@ -47,9 +51,11 @@ type Solver struct {
 	cmd       *exec.Cmd
 	in        io.WriteCloser
 	out       *bufio.Reader
+	lines     chan string
 	Stats     Stats
 	Log       io.Writer // optional transcript
 	LastError string
+	Lost      bool // the process was restarted: all solver-side state of the current path is gone
 	mu        sync.Mutex
 	seq       int
 	// Transcript accumulates everything sent since the last ResetTranscript
@@ -89,10 +95,26 @@ func (s *Solver) start() error {
 		return err
 	}
 	cmd.Stderr = cmd.Stdout
+	cmd.SysProcAttr = &syscall.SysProcAttr{Pdeathsig: syscall.SIGKILL}
 	if err := cmd.Start(); err != nil {
 		return err
 	}
 	s.cmd, s.in, s.out = cmd, in, bufio.NewReaderSize(out, 1<<16)
+	lines := make(chan string, 256)
+	s.lines = lines
+	rd := s.out
+	go func() {
+		defer close(lines)
+		for {
+			line, err := rd.ReadString('\n')
+			if line != "" {
+				lines <- line
+			}
+			if err != nil {
+				return
+			}
+		}
+	}()
 	s.prelude()
 	return nil
 }
@@ -139,7 +161,9 @@ func (s *Solver) Send(text string) {
 	if s.KeepScript {
 		s.Transcript.WriteString(text)
 	}
+	t0 := time.Now()
 	io.WriteString(s.in, text)
+	s.Stats.SendTime += time.Since(t0)
 }
 
 // roundTrip sends text followed by an echo sentinel and returns all output
@@ -149,17 +173,26 @@ func (s *Solver) roundTrip(text string) ([]string, error) {
 	sentinel := fmt.Sprintf("@@done%d", s.seq)
 	s.Send(text + "(echo \"" + sentinel + "\")\n")
 	var lines []string
+	// hard watchdog: solvers do not always honour their own timeout
+	limit := time.Duration(s.TimeoutMS)*time.Millisecond*2 + 10*time.Second
+	timer := time.NewTimer(limit)
+	defer timer.Stop()
 	for {
-		line, err := s.out.ReadString('\n')
-		if err != nil {
-			return lines, fmt.Errorf("solver %s died: %v (output so far: %v)", s.Kind, err, lines)
-		}
-		line = strings.TrimRight(line, "\r\n")
-		if strings.Trim(line, "\"") == sentinel {
-			return lines, nil
-		}
-		if line != "" {
-			lines = append(lines, line)
+		select {
+		case line, ok := <-s.lines:
+			if !ok {
+				return lines, fmt.Errorf("solver %s died (output so far: %v)", s.Kind, lines)
+			}
+			line = strings.TrimRight(line, "\r\n")
+			if strings.Trim(line, "\"") == sentinel {
+				return lines, nil
+			}
+			if line != "" {
+				lines = append(lines, line)
+			}
+		case <-timer.C:
+			s.Stats.Killed++
+			return lines, fmt.Errorf("solver %s exceeded the hard limit of %v and was killed", s.Kind, limit)
 		}
 	}
 }
@@ -181,6 +214,7 @@ func (s *Solver) Check(pre string) Result {
 		bad = true
 		s.LastError = err.Error()
 		s.Restart()
+		s.Lost = true
 	}
 	for _, l := range lines {
 		switch {
@@ -217,9 +251,13 @@ func (s *Solver) GetValues(exprs []string) (map[string]uint64, error) {
 		return res, nil
 	}
 	// one get-value per expression keeps parsing trivial
+	t0 := time.Now()
+	defer func() { s.Stats.GetTime += time.Since(t0) }()
 	for _, e := range exprs {
 		lines, err := s.roundTrip("(get-value (" + e + "))\n")
 		if err != nil {
+			s.Restart()
+			s.Lost = true
 			return nil, err
 		}
 		txt := strings.Join(lines, " ")
